@@ -32,3 +32,26 @@ Definition chk_c16_waiting (c : val) : val :=
   let impl := nthv 1 c in
   if negb (Z.eqb (as_Z (nthv 0 impl)) 0) then verdict_propfail 6 (VL [])
   else if forallb (fun x => Z.eqb (as_Z x) 14) (as_L (nthv 1 impl)) then verdict_ok else verdict_propfail 3 (VL []).
+
+(* C02, idle clients on the web adapters: input ( entry how sent cs ss ) ; impl ( stuck code )
+   entry 0 transcoded WebSocket, 1 gRPC-WebSocket ; how 0 the client hangs up, 1 the call's grpc-timeout expires
+   code: for gRPC-WebSocket 4000 + the grpc-status of the trailer frame, otherwise the WebSocket close code
+   5: the handler did not return within 1.5 s after the client went away / the deadline expired
+   7: an expired deadline was not reported: gRPC-WebSocket must send a trailer with status 4 (DeadlineExceeded), the
+      transcoded WebSocket must close with 1001 (its close code for every failed call, C13) *)
+Definition chk_c02_web_idle (c : val) : val :=
+  let input := nthv 0 c in
+  let impl := nthv 1 c in
+  let want := if Z.eqb (as_Z (nthv 0 input)) 0 then 1001 else 4004 in
+  if negb (Z.eqb (as_Z (nthv 0 impl)) 0) then verdict_propfail 5 (VL [])
+  else if Z.eqb (as_Z (nthv 1 input)) 1 && negb (Z.eqb (as_Z (nthv 1 impl)) want) then verdict_propfail 7 (VL [nthv 1 impl])
+  else verdict_ok.
+
+(* C12, what a real gRPC target observes: input ( with-timeout ms other-header ) ; impl ( observed http-status )
+   observed: 0 not reached, 1 no deadline, 2 a deadline within the client's, 3 a later deadline
+   6: the client sent a grpc-timeout but the target observed no deadline, or a later one *)
+Definition chk_c12_target (c : val) : val :=
+  let input := nthv 0 c in
+  let o := as_Z (nthv 0 (nthv 1 c)) in
+  if as_bool (nthv 0 input) then (if Z.eqb o 2 then verdict_ok else verdict_propfail 6 (VL [VN o]))
+  else (if Z.eqb o 1 then verdict_ok else verdict_propfail 6 (VL [VN o])).
